@@ -78,29 +78,41 @@ theorem row_roundtrip (f : CsvFmt) (geo : Bool) (pf : List Tok) (naf : Nat) (r :
   TV.TextIO.row_roundtrip f geo pf naf r afs hv hsep hnl htime hnd
 
 /-- **T2 (file)** `csv_file_roundtrip`: under the hypotheses of `row_roundtrip` for every observation
-(`RowOK`), the text `writeToFile` produces (for any value of its `h` argument: on this tree the writer never
-emits the header it is asked for, `hdrEff`) is read back by `readFromCsv(..., h=0)` as the same number of
-observations in the same order, each equal to what was written (`expRow`); and a reader told `h=1` — the
-"matching" value when the writer was called with `h=1` — loses the first observation (the defect listed as
-`csv-header-not-written`). -/
+(`RowOK`), for every value of the writer's `h` argument, every coordinate system name and feature names free of
+end-of-line characters (`HdrOK`), the text `writeToFile` produces — the data lines, preceded when `h > 0` by
+the three comment lines `#srid: …`, `#ref point: …`, `#<column names>` — is read back by
+`readFromCsv(..., h=hr)` as the same number of observations in the same order, each equal to what was written
+(`expRow`), for every reader header count `hr` up to the number of header lines written (0 when `h = 0`, 3
+otherwise). In particular the matching call `hr = h` reads everything back for `h` = 0, 1, 2, 3, and `hr = 0`
+always does (the header lines are comment lines). -/
 theorem csv_file_roundtrip (f : CsvFmt) (geo : Bool) (pf : List Tok) (h naf : Nat) (rows : List (Row × List Int))
+    (srid : Str) (names : List Str)
     (hv : ValidIds f) (hsep : numChar f.sep = false) (hnl : f.sep ≠ '\n') (htime : f.idT ≠ -1 → TimeOK pf f.sep)
-    (hrows : ∀ ra ∈ rows, RowOK f geo pf ra.1) :
-    ∃ text, writeToFile f geo pf h naf rows = .ok text ∧
-      readCsv f pf 0 text = .ok (rows.map (fun ra => expRow f geo pf ra.1)) ∧
-      (∀ ra rest, rows = ra :: rest → readCsv f pf 1 text = .ok (rest.map (fun ra => expRow f geo pf ra.1))) :=
-  TV.TextIO.csv_file_roundtrip f geo pf h naf rows hv hsep hnl htime hrows
+    (hrows : ∀ ra ∈ rows, RowOK f geo pf ra.1) (hh : HdrOK srid names) :
+    ∃ text, writeToFile f geo pf h naf rows srid names = .ok text ∧
+      ∀ hr, hr ≤ (if h = 0 then 0 else 3) → readCsv f pf hr text = .ok (rows.map (fun ra => expRow f geo pf ra.1)) :=
+  TV.TextIO.csv_file_roundtrip f geo pf h naf rows srid names hv hsep hnl htime hrows hh
 
-/-- reader side of the header option: a file made of a first line, any number of comment lines (`#…`) and
-then the data lines is read with `h=1` as exactly the observations. This is the shape the header block of
-`writeToFile` has (`#srid: …`, `#ref point: …`, `#E;N;…`), i.e. what a writer repaired to honour `h=1` produces. -/
+/-- the matching call: written with the flag `h` (0 or 1), read with `h` -/
+theorem csv_file_roundtrip_matching (f : CsvFmt) (geo : Bool) (pf : List Tok) (h naf : Nat) (hh01 : h ≤ 1)
+    (rows : List (Row × List Int)) (srid : Str) (names : List Str)
+    (hv : ValidIds f) (hsep : numChar f.sep = false) (hnl : f.sep ≠ '\n') (htime : f.idT ≠ -1 → TimeOK pf f.sep)
+    (hrows : ∀ ra ∈ rows, RowOK f geo pf ra.1) (hh : HdrOK srid names) :
+    ∃ text, writeToFile f geo pf h naf rows srid names = .ok text ∧
+      readCsv f pf h text = .ok (rows.map (fun ra => expRow f geo pf ra.1)) := by
+  obtain ⟨text, hw, hr⟩ := csv_file_roundtrip f geo pf h naf rows srid names hv hsep hnl htime hrows hh
+  exact ⟨text, hw, hr h (by split <;> omega)⟩
+
+/-- reader side of the header option: a file made of `header` first lines of any content, any number of comment
+lines (`#…`) and then the data lines is read with `h=header` as exactly the observations. The header block of
+`writeToFile` (`#srid: …`, `#ref point: …`, `#E;N;…`) has this shape for every split of its three lines. -/
 theorem csv_header_block_roundtrip (f : CsvFmt) (geo : Bool) (pf : List Tok) (naf : Nat) (rows : List (Row × List Int))
     (hv : ValidIds f) (hsep : numChar f.sep = false) (hnl : f.sep ≠ '\n') (htime : f.idT ≠ -1 → TimeOK pf f.sep)
     (hrows : ∀ ra ∈ rows, RowOK f geo pf ra.1)
-    (first : Str) (cm : List Str) (hfirst : '\n' ∉ first) (hcm : ∀ l ∈ cm, '\n' ∉ l ∧ ∃ cs, strip l = '#' :: cs) :
-    readCsv f pf 1 (((first :: cm ++ rows.map (fun ra => rowLine f geo pf ra.1 ra.2)).map (· ++ ['\n'])).flatten)
+    (pre : List Str) (cm : List Str) (hpre : ∀ l ∈ pre, '\n' ∉ l) (hcm : ∀ l ∈ cm, '\n' ∉ l ∧ ∃ cs, strip l = '#' :: cs) :
+    readCsv f pf pre.length (((pre ++ (cm ++ rows.map (fun ra => rowLine f geo pf ra.1 ra.2))).map (· ++ ['\n'])).flatten)
       = .ok (rows.map (fun ra => expRow f geo pf ra.1)) :=
-  TV.TextIO.csv_header_block_roundtrip f geo pf naf rows hv hsep hnl htime hrows first cm hfirst hcm
+  TV.TextIO.csv_header_block_roundtrip f geo pf naf rows hv hsep hnl htime hrows pre cm hpre hcm
 
 /-- **T3 `time_roundtrip`**: for a format made of distinct full-width codes (`2D 2M 4Y 2h 2m 2s 3z`,
 `Lossless`) and arbitrary literal characters, and a stamp whose fields fit their widths (`Fits`: four-digit
@@ -183,14 +195,12 @@ theorem network_row_roundtrip (sep : Char) (hs : SepOK sep) (hdr d : Nat) (e : N
   ⟨netRow_eq sep d e, csvRecord_edgeBody sep hs d e he, netReadRow_record sep hdr d e he⟩
 
 /-- **T4 (network file)** `net_file_roundtrip`: a network written with its header line (`h=1`) and read with
-`header=1` gives back all edges in order, each equal to what was written; written without header (`h=0`) and
-read with `header=0` it comes back without its first edge, because the reader's header loop consumes one
-record before testing the count (the defect listed as `network-no-header-first-edge`). The node table of the
-result is `nodesOf` of these edges: identifiers in order of first appearance, each at the end vertex of the
-first edge that mentions it. -/
+`header=1`, or written without header (`h=0`) and read with `header=0`, gives back all edges in order, each
+equal to what was written. The node table of the result is `nodesOf` of these edges: identifiers in order of
+first appearance, each at the end vertex of the first edge that mentions it. -/
 theorem net_file_roundtrip (sep : Char) (hs : SepOK sep) (d : Nat) (es : List NEdge) (he : ∀ e ∈ es, EdgeOK sep e) :
     netRead ⟨0, 1, 2, 3, 4, sep, 1⟩ (netWrite sep 1 d es) = .ok (es.map (expEdge d))
-    ∧ netRead ⟨0, 1, 2, 3, 4, sep, 0⟩ (netWrite sep 0 d es) = .ok (es.tail.map (expEdge d)) :=
+    ∧ netRead ⟨0, 1, 2, 3, 4, sep, 0⟩ (netWrite sep 0 d es) = .ok (es.map (expEdge d)) :=
   TV.TextIO.net_file_roundtrip sep hs d es he
 
 /-! ### non-vacuity and the documented preconditions -/
@@ -215,6 +225,23 @@ the writer still writes two columns (rank order) and the reader looks for a thir
 example : (writeToFile ⟨0, 2, -1, -1, ','⟩ false [] 0 0 [(⟨⟨false, 1000⟩, ⟨false, 2000⟩, ⟨false, 0⟩, epoch⟩, [])]).toOption
       = some "1.000,2.000\n".toList
     ∧ (readCsv ⟨0, 2, -1, -1, ','⟩ [] 0 "1.000,2.000\n".toList).toOption = none := by decide +kernel
+
+/-- the header block `writeToFile(..., h=1)` writes: E in column 1, N in 0, time in 2, one feature column; and the
+file is read back whole with `h=1` and with `h=0` -/
+example : (writeToFile ⟨1, 0, -1, 2, ';'⟩ true (tokenize "2D/2M/4Y 2h:2m:2s".toList) 1 1
+      [(⟨⟨false, 15000000000⟩, ⟨true, 25000000000⟩, ⟨false, 0⟩, ⟨⟨2020, 1, 1, 10, 0, 0⟩, 0⟩⟩, [-7])] "GEO".toList ["af0".toList]).toOption
+    = some "#srid: Geo\n#ref point: None\n#lat;lon;time;af0\n-2.5000000000;1.5000000000;01/01/2020 10:00:00;-7\n".toList := by
+  decide +kernel
+example : (readCsv ⟨1, 0, -1, 2, ';'⟩ (tokenize "2D/2M/4Y 2h:2m:2s".toList) 1
+      "#srid: Geo\n#ref point: None\n#lat;lon;time;af0\n-2.5000000000;1.5000000000;01/01/2020 10:00:00;-7\n".toList).toOption
+      = some [⟨(15000000000, 10), (-25000000000, 10), (0, 0), ⟨⟨2020, 1, 1, 10, 0, 0⟩, 0⟩⟩]
+    ∧ (readCsv ⟨1, 0, -1, 2, ';'⟩ (tokenize "2D/2M/4Y 2h:2m:2s".toList) 0
+      "#srid: Geo\n#ref point: None\n#lat;lon;time;af0\n-2.5000000000;1.5000000000;01/01/2020 10:00:00;-7\n".toList).toOption
+      = some [⟨(15000000000, 10), (-25000000000, 10), (0, 0), ⟨⟨2020, 1, 1, 10, 0, 0⟩, 0⟩⟩] := by decide +kernel
+example : HdrOK "ECEF".toList ["af0".toList, "speed".toList] := by unfold HdrOK; decide
+/-- the network reader with `header=0` keeps the first record -/
+example : (netRead ⟨0, 1, 2, 3, 4, ',', 0⟩ "e1,a,b,-1,\"LINESTRING(0.0 0.0,1.5 -2.25)\"\n".toList).toOption
+    = some [⟨"e1".toList, "a".toList, "b".toList, -1, [((0, 1), (0, 1), (0, 0)), ((15, 1), (-225, 2), (0, 0))]⟩] := by decide +kernel
 
 /-- counter-example documenting the separator precondition: with the blank separator the default
 time format is split, and the timestamp written last reads back as `ObsTime()` (the defect listed as
